@@ -529,4 +529,23 @@ Section GrowProofs.
         apply (route_false nodes (nth i x []) j (nth j nodes dn) (S tc)); auto.
         apply nth_nth_error; exact Hjl.
   Qed.
+
+  Lemma samples_routed s nodes G D i k : tree_consistent s nodes G D -> i < length x -> k < length nodes ->
+    (route nodes (nth i x []) k -> nth i (G k) 0 = nth i s 0) /\
+    (~ route nodes (nth i x []) k -> nth i (G k) 0 = 0).
+  Proof.
+    intros C Hi Hk. split.
+    - intros R. eapply samples_routed_fwd; eauto.
+    - intros NR. destruct (nth i (G k) 0) eqn:E; [reflexivity|]. exfalso. apply NR.
+      eapply samples_routed_bwd; eauto. lia.
+  Qed.
 End GrowProofs.
+
+(* with the trivial output predicate: structure, sample vectors and depth of every grown tree *)
+Lemma grow_tree_structure {T A} (O : Ops T) (a0 : A) x msl find root_out samples max_depth nodes d :
+  grow_tree O a0 x msl find root_out samples max_depth = Some (nodes, d) ->
+  exists G D, tree_consistent O a0 x msl (fun _ _ => True) samples nodes G D /\
+              (forall k, k < length nodes -> D k <= md_of max_depth).
+Proof.
+  intros H. eapply grow_tree_consistent; [| |exact H]; auto.
+Qed.
